@@ -27,10 +27,25 @@ EXPLANATION = ("storage state machine (Store/Store.v) with theorems no-overwrite
 def gen(rng, tier):
     n = {"quick": 40, "thorough": 800, "search": 80}[tier]
     cases = []
-    for _ in range(n):
+    for i in range(n):
         ops = []
         narr = 0
         corpora = []
+        if i % 10 == 3:
+            # many indexes in one directory (file names past one digit: "9" -> "10" -> "11"), then re-load earlier ones
+            if rng.random() < 0.3:
+                ops.append(["foreign"])
+            for _k in range(rng.randint(11, 15)):
+                docs, _ = K.gen_docs(rng, n_docs=rng.randint(1, 3), maxlen=8, vocab=rng.choice([2, 3]), long_doc=0.0)
+                docs = [d or [] for d in docs]
+                if not any(docs):
+                    docs[0] = [0, 1]
+                ops.append(["index", docs, rng.random() < 0.7])
+                narr += 1
+            for a in sorted(rng.sample(range(narr), 5)) + [narr - 2, narr - 3]:
+                ops.append(["roundtrip", a, rng.random() < 0.3, rng.random() < 0.3])
+            cases.append({"ops": ops, "seed": rng.randint(0, 10 ** 6)})
+            continue
         if rng.random() < 0.3:
             ops.append(["foreign"])
         for _k in range(rng.randint(2, 9)):
